@@ -16,6 +16,8 @@ CFGS = ["compact+map", "pretty:default:semi+map", "pretty:tab:nosemi+map", "pret
 
 def reindent(ctx, text, n):
     """seeded extra indentation / spacing of the SOURCE (positions vary, tokens do not)"""
+    if n % 5 == 4:
+        return text.replace("\n", "\r\n")      # Windows line endings: positions must not change lines
     if n % 3 == 0:
         return text
     lines = text.split("\n")
